@@ -1541,6 +1541,14 @@ class ReceivePackHandler(PackHandler):
                     except KeyError:
                         ref_status = b"bad ref"
                         has_failure = True
+                    else:
+                        try:
+                            current = self.repo.refs[ref]
+                        except KeyError:
+                            current = zero_sha
+                        if current != oldsha:
+                            ref_status = b"failed to update ref"
+                            has_failure = True
 
                 ref_results.append((ref, ref_status))
 
@@ -1553,7 +1561,11 @@ class ReceivePackHandler(PackHandler):
                         yield (ref, status)
                 return
 
-            # All validations passed; apply all ref updates
+            # All validations passed; apply the ref updates in order. If one
+            # of them fails after all (a concurrent update, a ref that cannot
+            # be written), put the refs already updated back and fail them all.
+            applied: list[tuple[ObjectID, ObjectID, Ref]] = []
+            failure: tuple[Ref, bytes] | None = None
             for oldsha, sha, ref in refs:
                 ref_status = b"ok"
                 try:
@@ -1571,7 +1583,35 @@ class ReceivePackHandler(PackHandler):
                             ref_status = b"failed to write"
                 except KeyError:
                     ref_status = b"bad ref"
-                yield (ref, ref_status)
+                if ref_status != b"ok":
+                    failure = (ref, ref_status)
+                    break
+                applied.append((oldsha, sha, ref))
+
+            if failure is not None:
+                for oldsha, sha, ref in reversed(applied):
+                    try:
+                        if oldsha == zero_sha:
+                            undone = self.repo.refs.remove_if_equals(ref, sha)
+                        elif sha == zero_sha:
+                            undone = self.repo.refs.add_if_new(ref, oldsha)
+                        else:
+                            undone = self.repo.refs.set_if_equals(ref, sha, oldsha)
+                    except all_exceptions:
+                        undone = False
+                    if not undone:
+                        logger.warning(
+                            "Atomic push failed but %r could not be put back", ref
+                        )
+                for _oldsha, _sha, ref in refs:
+                    if ref == failure[0]:
+                        yield failure
+                    else:
+                        yield (ref, b"atomic push failed")
+                return
+
+            for _oldsha, _sha, ref in refs:
+                yield (ref, b"ok")
         else:
             for oldsha, sha, ref in refs:
                 ref_status = b"ok"
